@@ -15,7 +15,7 @@ var e1Components = map[string]string{
 var e1Rules = map[string][3]string{
 	// rule, exhaustive dimensions, required probes (comma separated)
 	"C01": {"one plan = one real-stack topology drawn from the seed (client config, backend config, key set, links, topology); non-trivial = every handshake of the plan completed as expected; distinct = different canonical (event kind, node, size class) sequence of the simulated network",
-		"", "hrr_seen,psk_resumed,pq_key_share,stale_rejected,retry_config_used,inner_reconstruction_checked,inner_without_sni,hrr_client_without_compat_ccs"},
+		"", "hrr_seen,psk_resumed,pq_key_share,stale_rejected,retry_config_used,inner_reconstruction_checked,inner_without_sni,hrr_client_without_compat_ccs,hrr_write_returns_late"},
 	"C02": {"substitution plans: one sealed hello with one deliberate mismatch; flip plans: one accepted hello (toolbox, real client, or the hello after HelloRetryRequest) and every single-bit corruption of its record; an evaluation = one fresh NewConn; distinct = (substitution kind, layout classes) resp. one per flip plan",
 		"every single-bit flip of the hello record, for each flip plan's hello", "flip_aborted,flip_passthrough,retry_flip_aborted"},
 	"C03": {"live plans with a re-encoding client node, scripted plans with grammar-generated inner/outer pairs; non-trivial = accepted and compared with the reference reconstruction; distinct = (compression, padding, size, chunking classes) resp. network schedule signature",
